@@ -40,6 +40,10 @@ enum Op {
     Adv(u32),
     Res(u32, u64),
     Push(u64, u64),
+    /// `set_peer(PeerHandle{id})` - no effect on either wait (exercised: it takes the same mutex)
+    SetPeer(u64),
+    /// a read-only call: 0 offsets, 1 is_cancelled, 2 cancel_reason, 3 timestamps, 4 peer, 5/6 replay_chunks_from
+    Query(u8),
 }
 
 impl Op {
@@ -51,6 +55,8 @@ impl Op {
             Op::Adv(f) => format!("adv:{}", f),
             Op::Res(f, o) => format!("res:{}:{}", f, o),
             Op::Push(o, l) => format!("push:{}:{}", o, l),
+            Op::SetPeer(p) => format!("peer:{}", p),
+            Op::Query(k) => format!("q:{}", k),
         }
     }
     fn parse(w: &str) -> Option<Op> {
@@ -62,6 +68,8 @@ impl Op {
             ("adv", 2) => Op::Adv(p[1].parse().ok()?),
             ("res", 3) => Op::Res(p[1].parse().ok()?, p[2].parse().ok()?),
             ("push", 3) => Op::Push(p[1].parse().ok()?, p[2].parse().ok()?),
+            ("peer", 2) => Op::SetPeer(p[1].parse().ok()?),
+            ("q", 2) => Op::Query(p[1].parse().ok()?),
             _ => return None,
         })
     }
@@ -76,15 +84,71 @@ fn parse_ops(s: &str) -> Option<Vec<Op>> {
     s.split(',').map(Op::parse).collect()
 }
 
-/// A peer that is never used for sending (request_resume only stores it).
-fn dummy_peer() -> repe::PeerHandle {
-    struct Dummy;
+/// A peer that is never used for sending (request_resume / set_peer only store it; the previous one is
+/// dropped under the control's mutex, so some sinks are slow to drop).
+fn dummy_peer(id: u64) -> repe::PeerHandle {
+    struct Dummy(u64);
     impl repe::PeerSink for Dummy {
         fn send_notify(&self, _method: &str, _body: repe::NotifyBody) -> Result<(), repe::PeerSendError> { Ok(()) }
-        fn is_connected(&self) -> bool { true }
+        fn is_connected(&self) -> bool { self.0 % 2 == 0 }
     }
-    repe::PeerHandle::new(repe::PeerId(1), Arc::new(Dummy))
+    impl Drop for Dummy {
+        fn drop(&mut self) { if self.0 % 3 == 2 { std::thread::sleep(Duration::from_micros(150)); } }
+    }
+    repe::PeerHandle::new(repe::PeerId(id), Arc::new(Dummy(id)))
 }
+
+/// The text of cancel reason number `k`: the op line carries the number, the control gets this text
+/// (empty, non-ASCII, long, padded, digits only, the watchdog's own wording). Injective in `k`.
+fn reason_text(k: u64) -> String {
+    if k == 0 { return "transfer idle".to_string(); }
+    if k == 1 { return String::new(); }
+    match k % 6 {
+        0 => format!("r{}", k),
+        1 => format!("annulé ☃ 取消 {}", k),
+        2 => format!("{}{}", "x".repeat(5000), k),
+        3 => format!("{}", k),
+        4 => format!("  padded \t {} ", k),
+        _ => format!("transfer idle {}", k),
+    }
+}
+
+/// Inverse of `reason_text` (None: not a text the harness ever passed).
+fn reason_num(text: &str) -> Option<u64> {
+    if text == "transfer idle" { return Some(0); }
+    if text.is_empty() { return Some(1); }
+    let t = text.trim_end();
+    let digits: String = t.chars().rev().take_while(|c| c.is_ascii_digit()).collect::<Vec<_>>().into_iter().rev().collect();
+    let k: u64 = digits.parse().ok()?;
+    if reason_text(k) == text { Some(k) } else { None }
+}
+
+/// `cancel(reason: impl Into<String>)`: a caller-defined type whose conversion takes a while (it runs
+/// under the control's mutex).
+struct SlowReason(String);
+impl From<SlowReason> for String {
+    fn from(r: SlowReason) -> String { std::thread::sleep(Duration::from_micros(120)); r.0 }
+}
+
+fn push_body_len(off: u64, len: u64) -> usize { [1usize, 0, 17, 1, 3][((off / 1).wrapping_add(len) % 5) as usize] }
+
+/// Replay capacity of the control of a case: a function of the recorded case (so a replay is exact), always
+/// large enough that nothing is evicted (eviction belongs to C13; the C12 model has none): `new(window)`,
+/// exactly the bytes pushed (boundary of `bytes_held > capacity`), one more, `u64::MAX`.
+fn make_control(window: u64, setup: &[Op]) -> Arc<TransferControl> {
+    let total: u64 = setup.iter().map(|o| if let Op::Push(o, l) = o { push_body_len(*o, *l) as u64 } else { 0 }).sum();
+    let h = setup.iter().fold(window, |h, o| h.wrapping_mul(31).wrapping_add(match o { Op::Push(a, b) => a ^ b, Op::Sent(n) => *n, _ => 7 }));
+    match h % 5 {
+        0 => TransferControl::with_replay_capacity(window, total),
+        1 => TransferControl::with_replay_capacity(window, total + 1),
+        2 => TransferControl::with_replay_capacity(window, u64::MAX),
+        3 => TransferControl::with_replay_capacity(window, repe::DEFAULT_REPLAY_RING_BYTES),
+        _ => TransferControl::new(window),
+    }
+}
+
+/// `in_flight == 0 || in_flight + len <= window` with the checked add of the source (an overflowing sum does not fit).
+fn credit_fits(inf: u64, len: u64, window: u64) -> bool { inf == 0 || inf.checked_add(len).map_or(false, |t| t <= window) }
 
 /// What a `request_resume` answered (needed to know whether a pending resume was staged).
 #[derive(Clone, Copy, Debug, PartialEq)]
@@ -94,13 +158,30 @@ fn apply(tc: &TransferControl, op: &Op) -> OpRes {
     match op {
         Op::Sent(n) => { tc.record_sent(*n); OpRes::Unit }
         Op::Ack(f, o) => { tc.record_ack(*f, *o); OpRes::Unit }
-        Op::Cancel(r) => { tc.cancel(format!("r{}", r)); OpRes::Unit }
+        Op::Cancel(r) => {
+            let text = reason_text(*r);
+            match r % 3 { 0 => tc.cancel(text), 1 => tc.cancel(text.as_str()), _ => tc.cancel(SlowReason(text)) }
+            OpRes::Unit
+        }
         Op::Adv(f) => { tc.advance_to_file(*f); OpRes::Unit }
-        Op::Res(f, o) => match tc.request_resume(dummy_peer(), *f, *o) {
+        Op::Res(f, o) => match tc.request_resume(dummy_peer((*f as u64).wrapping_add(*o) % 4), *f, *o) {
             Ok(off) => OpRes::ResumeOk(off),
             Err(_) => OpRes::ResumeErr,
         },
-        Op::Push(o, l) => { tc.push_replay(*o, *l, false, vec![0u8; 1]); OpRes::Unit }
+        Op::Push(o, l) => { tc.push_replay(*o, *l, (o ^ l) % 3 == 0, vec![0u8; push_body_len(*o, *l)]); OpRes::Unit }
+        Op::SetPeer(p) => { tc.set_peer(dummy_peer(*p)); OpRes::Unit }
+        Op::Query(k) => {
+            match k % 7 {
+                0 => { let _ = tc.offsets(); }
+                1 => { let _ = tc.is_cancelled(); }
+                2 => { let _ = tc.cancel_reason(); }
+                3 => { let _ = tc.timestamps(); }
+                4 => { let _ = tc.peer().map(|p| p.peer_id()); }
+                5 => { let _ = tc.replay_chunks_from(0); }
+                _ => { let _ = tc.replay_chunks_from(u64::MAX); }
+            }
+            OpRes::Unit
+        }
     }
 }
 
@@ -151,7 +232,11 @@ impl Got {
     fn show(&self) -> String {
         match self {
             Got::Ok => "ok".into(),
-            Got::Cancelled(r) => format!("cancelled:{}", r.strip_prefix('r').unwrap_or(r)),
+            Got::Cancelled(r) => match reason_num(r) {
+                Some(k) => format!("cancelled:{}", k),
+                None if r == "cleanup" => "cancelled:cleanup".to_string(),
+                None => format!("cancelled:?{:x}", fnv(r.as_bytes())),
+            },
             Got::Resume(o) => format!("resume:{}", o),
             Got::Timeout => "timeout".into(),
             Got::Parked => "parked".into(),
@@ -166,7 +251,7 @@ fn acceptable(kind: &Kind, window: u64, sent: u64, acked: u64, cancelled: &Optio
     let mut v = Vec::new();
     if let Some(r) = cancelled { v.push(Got::Cancelled(r.clone())); }
     match kind {
-        Kind::Credit(len) => { let inf = sent.saturating_sub(acked); if inf == 0 || inf.saturating_add(*len) <= window { v.push(Got::Ok); } }
+        Kind::Credit(len) => { let inf = sent.saturating_sub(acked); if credit_fits(inf, *len, window) { v.push(Got::Ok); } }
         Kind::Reconnect => { if let Some(o) = pending { v.push(Got::Resume(o)); } }
     }
     v
@@ -214,7 +299,7 @@ struct Exec {
 
 /// Run one case against the real `TransferControl`.
 fn execute(c: &Case, rng: &mut Rng, tmo_ms: u64) -> Exec {
-    let tc = TransferControl::new(c.window);
+    let tc = make_control(c.window, &c.setup);
     let mut setup_pending = None;
     for op in &c.setup {
         match (op, apply(&tc, op)) { (Op::Adv(_), _) => setup_pending = None, (_, OpRes::ResumeOk(o)) => setup_pending = Some(o), _ => {} }
@@ -229,11 +314,14 @@ fn execute(c: &Case, rng: &mut Rng, tmo_ms: u64) -> Exec {
     let (tx, rx) = mpsc::channel::<(Got, Instant, Instant)>();
     let waiter = {
         let (tc, tid, entered, done, kind, tmo) = (tc.clone(), tid.clone(), entered.clone(), done.clone(), c.kind.clone(), c.tmo);
+        let window_parity = c.window % 2 == 0;
+        let imm_past = c.imm && c.window % 3 == 0;
         std::thread::spawn(move || {
             tid.store(gettid(), Ordering::SeqCst);
-            let span = if tmo { Duration::from_millis(tmo_ms) } else { FAR };
+            // far deadline: one hour or ten years; `imm`: now, or (credit) already a second in the past
+            let span = if tmo { Duration::from_millis(tmo_ms) } else if window_parity { FAR } else { FAR * 87_600 };
             let t0 = Instant::now();
-            let deadline = t0 + span;
+            let deadline = if imm_past { t0.checked_sub(Duration::from_secs(1)).unwrap_or(t0) } else { t0 + span };
             entered.store(true, Ordering::SeqCst);
             let r = catch(|| match kind {
                 Kind::Credit(len) => match tc.wait_for_credit(len, deadline) {
@@ -310,7 +398,7 @@ fn execute(c: &Case, rng: &mut Rng, tmo_ms: u64) -> Exec {
     let (sent, acked) = catch(|| tc.offsets()).unwrap_or((0, 0));
     let cancelled = catch(|| tc.is_cancelled()).unwrap_or(true);
     let must_return = cancelled || match &c.kind {
-        Kind::Credit(len) => { let inf = sent.saturating_sub(acked); inf == 0 || inf.saturating_add(*len) <= c.window }
+        Kind::Credit(len) => { let inf = sent.saturating_sub(acked); credit_fits(inf, *len, c.window) }
         Kind::Reconnect => pending_after(c, &snaps, &results).is_some(),
     };
 
@@ -420,7 +508,7 @@ fn oracles(out: &mut Out, c: &Case, e: &Exec, line: &str) {
     let all_ops = || c.threads.iter().flatten();
     match &e.got {
         Got::Cancelled(r) => {
-            let known = all_ops().any(|o| matches!(o, Op::Cancel(x) if format!("r{}", x) == *r));
+            let known = all_ops().any(|o| matches!(o, Op::Cancel(x) if reason_text(*x) == *r));
             if !known { out.oracle_fail(&format!("{}.value.cancel_reason", fam), &format!("returned Cancelled({}) but no cancel with that reason ran", r), &ops); }
         }
         Got::Resume(off) => {
@@ -451,7 +539,7 @@ struct World { scale: u64, window: u64, chunks: Vec<(u64, u64)>, sent: u64, acke
 /// A control object whose credit waiter (chunk `len`) has to park: window full.
 fn world(rng: &mut Rng) -> World {
     let scale = *rng.pick(&[1u64, 1, 1, 3, 1000, 1 << 20, 1 << 40]);
-    let file = *rng.pick(&[0u32, 0, 1, 2, 7]);
+    let file = *rng.pick(&[0u32, 0, 1, 2, 7, u32::MAX]);
     let mut setup = Vec::new();
     if file != 0 { setup.push(Op::Adv(file)); }
     let n = rng.range(1, 4);
@@ -471,7 +559,10 @@ fn world(rng: &mut Rng) -> World {
     if acked > 0 { setup.push(Op::Ack(file, acked)); }
     let inflight = sent - acked;
     // window: anything from 1 to a bit above in-flight; len so that in_flight + len > window
-    let (window, len) = match rng.below(16) {
+    let (window, len) = match rng.below(19) {
+        16 => (u64::MAX, (u64::MAX - inflight).saturating_add(1 + rng.below(3))),               // widest window: only an overflowing sum does not fit
+        17 => (*rng.pick(&[0u64, 1, scale, u64::MAX - 1]), u64::MAX),          // longest chunk: the sum always overflows
+        18 => (repe::DEFAULT_WINDOW_BYTES, repe::DEFAULT_WINDOW_BYTES - inflight.min(repe::DEFAULT_WINDOW_BYTES) + 1 + rng.below(3)),
         // boundaries of the credit rule `in_flight == 0 || in_flight + len <= window` (window stays full: in-flight > 0)
         0 | 1 => (0, *rng.pick(&[0u64, 0, 1, scale, inflight])),               // stop-and-wait: only in-flight 0 grants
         2 | 3 => (rng.below(inflight / scale) * scale, 0),                     // zero-length chunk, window < in-flight: an ack landing exactly on `window` grants
@@ -484,23 +575,33 @@ fn world(rng: &mut Rng) -> World {
             (window, min_len + rng.below(3) * scale)
         }
     };
-    debug_assert!(inflight > 0 && inflight + len > window);
+    debug_assert!(inflight > 0 && !credit_fits(inflight, len, window));
     World { scale, window, chunks, sent, acked, file, len, setup }
 }
 
-fn other_file(rng: &mut Rng, f: u32) -> u32 { loop { let g = rng.below(9) as u32; if g != f { return g; } } }
+fn other_file(rng: &mut Rng, f: u32) -> u32 {
+    loop {
+        let g = match rng.below(12) { 9 => u32::MAX, 10 => u32::MAX - 1, 11 => 0, k => k as u32 };
+        if g != f { return g; }
+    }
+}
 
 /// One signalling op; `harmless` = must not be able to make either wait condition true in any order.
 fn gen_op(rng: &mut Rng, w: &World, reconnect: bool, harmless: bool, reason: &mut u64) -> Op {
     let inflight = w.sent - w.acked;
     // largest ack offset that keeps the window full: sent - off + len > window  <=>  off < sent + len - window
-    let keep_full_below = (w.sent + w.len).saturating_sub(w.window).min(w.sent); // off < this keeps it full (and in-flight > 0)
+    let keep_full_below = w.sent.saturating_add(w.len).saturating_sub(w.window).min(w.sent); // off < this keeps it full (and in-flight > 0)
     loop {
         let k = rng.below(100);
-        let op = if k < 34 {
+        let op = if k < 6 {
+            // calls that must not matter: readers and set_peer (they take the same mutex)
+            if rng.chance(1, 3) { Op::SetPeer(rng.below(4)) } else { Op::Query(rng.below(7) as u8) }
+        } else if k < 34 {
             // ack
             let f = if rng.chance(5, 6) { w.file } else { other_file(rng, w.file) };
-            let off = match rng.below(7) {
+            let off = match rng.below(9) {
+                7 => 0,
+                8 => u64::MAX,                                           // capped to sent
                 0 => w.sent,
                 1 => w.sent + rng.range(1, 3) * w.scale,                 // beyond sent: capped
                 2 => w.acked.saturating_sub(rng.below(2) * w.scale),     // stale
@@ -529,14 +630,23 @@ fn gen_op(rng: &mut Rng, w: &World, reconnect: bool, harmless: bool, reason: &mu
             } else {
                 // inside a chunk or past the end
                 let c = *rng.pick(&w.chunks);
-                if c.1 > 1 && rng.chance(1, 2) { c.0 + 1 + rng.below(c.1 - 1) } else { w.sent + 1 + rng.below(3) }
+                match rng.below(8) {
+                    0 => u64::MAX,
+                    1 if w.chunks[0].1 > 0 => w.sent + w.scale,
+                    _ => if c.1 > 1 && rng.chance(1, 2) { c.0 + 1 + rng.below(c.1 - 1) } else { w.sent + 1 + rng.below(3) }
+                }
             };
             let accepted = f == w.file && (w.chunks.iter().any(|c| c.0 == off) || off == w.sent);
             if harmless && accepted { continue; }
             if !reconnect && !harmless && !accepted && rng.chance(1, 2) { continue; }
             Op::Res(f, off)
         } else {
-            let n = if rng.chance(2, 3) { w.sent + rng.range(1, 4) * w.scale } else { w.sent.saturating_sub(rng.below(3) * w.scale) };
+            let n = match rng.below(12) {
+                0 => 0,
+                1 => u64::MAX,                                           // everything in flight from now on
+                k if k < 8 => w.sent + rng.range(1, 4) * w.scale,
+                _ => w.sent.saturating_sub(rng.below(3) * w.scale),
+            };
             Op::Sent(n)
         };
         return op;
@@ -561,7 +671,7 @@ fn gen_case(rng: &mut Rng, tmo: bool) -> Case {
                 0 => { reason += 1; Op::Cancel(reason) }
                 1 => Op::Adv(other_file(rng, w.file)),
                 2 => Op::Res(w.file, w.sent),
-                _ => Op::Ack(w.file, if rng.chance(1, 2) { w.sent } else { (w.sent + w.len).saturating_sub(w.window).min(w.sent) }),
+                _ => Op::Ack(w.file, if rng.chance(1, 2) { w.sent } else { w.sent.saturating_add(w.len).saturating_sub(w.window).min(w.sent) }),
             }
         };
     }
@@ -748,7 +858,7 @@ fn gen_multi(rng: &mut Rng) -> MultiCase {
     let n = rng.range(2, 4) as usize;
     let mut kinds = Vec::new();
     for _ in 0..n {
-        if rng.chance(2, 5) { kinds.push(Kind::Reconnect); } else { kinds.push(Kind::Credit(w.len + rng.below(4) * w.scale)); }
+        if rng.chance(2, 5) { kinds.push(Kind::Reconnect); } else { kinds.push(Kind::Credit(w.len.saturating_add(rng.below(4) * w.scale))); }
     }
     let mut reason = 0u64;
     let nops = rng.range(1, 3) as usize;
@@ -818,7 +928,7 @@ fn run_multi(out: &mut Out, c: &MultiCase, idx: u64) {
         match (op, r) { (Op::Adv(_), _) => pending = None, (Op::Res(..), OpRes::ResumeOk(o)) => pending = Some(*o), _ => {} }
     }
     let must: Vec<usize> = (0..n).filter(|&i| match &c.kinds[i] {
-        Kind::Credit(len) => { let inf = sent.saturating_sub(acked); cancelled || inf == 0 || inf.saturating_add(*len) <= c.window }
+        Kind::Credit(len) => { let inf = sent.saturating_sub(acked); cancelled || credit_fits(inf, *len, c.window) }
         Kind::Reconnect => cancelled,
     }).collect();
     let n_reconnect = c.kinds.iter().filter(|k| **k == Kind::Reconnect).count();
@@ -864,7 +974,7 @@ fn run_multi(out: &mut Out, c: &MultiCase, idx: u64) {
         match g {
             Got::Timeout => out.oracle_fail("wake.multi.timeout.early", "Timeout returned with a deadline one hour away", &ops_v),
             Got::Panic => out.oracle_fail("wake.multi.panic", "a wait panicked", &ops_v),
-            Got::Cancelled(r) if !c.ops.iter().any(|o| matches!(o, Op::Cancel(x) if format!("r{}", x) == *r)) =>
+            Got::Cancelled(r) if !c.ops.iter().any(|o| matches!(o, Op::Cancel(x) if reason_text(*x) == *r)) =>
                 out.oracle_fail("wake.multi.value.cancel_reason", &format!("returned Cancelled({}) but no cancel with that reason ran", r), &ops_v),
             Got::Resume(o) if !results.iter().any(|r| *r == OpRes::ResumeOk(*o)) =>
                 out.oracle_fail("wake.multi.value.resume", &format!("returned ResumeReady({}) but no accepted resume at that offset", o), &ops_v),
@@ -979,7 +1089,7 @@ fn run_sq(c: SqCase, seed: u64) -> SqResult {
     let mut rng = Rng::new(seed);
     let fam = match c.kind { Kind::Credit(_) => "wake.credit", Kind::Reconnect => "wake.reconnect" };
     let (k, len) = match &c.kind { Kind::Credit(l) => ("credit", *l), Kind::Reconnect => ("reconnect", 0) };
-    let tc = TransferControl::new(c.window);
+    let tc = make_control(c.window, &c.setup);
     for op in &c.setup { apply(&tc, op); }
     let mut res = SqResult { kind: c.kind.clone(), lines: vec![], fails: vec![] };
     let total = c.n_timeouts + 1;
@@ -1090,9 +1200,9 @@ fn race_round(rng: &mut Rng, i: u64) -> RaceRound {
     } else {
         match rng.below(4) { 0 => Op::Cancel(rng.range(1, 9)), 1 => Op::Adv(other_file(rng, w.file)), 2 => Op::Res(w.file, w.sent),
             // the smallest sufficient ack (in-flight lands exactly on window - len, or on 0) or everything
-            _ => Op::Ack(w.file, if rng.chance(1, 2) { w.sent } else { (w.sent + w.len).saturating_sub(w.window).min(w.sent) }) }
+            _ => Op::Ack(w.file, if rng.chance(1, 2) { w.sent } else { w.sent.saturating_add(w.len).saturating_sub(w.window).min(w.sent) }) }
     };
-    let keep_full_below = (w.sent + w.len).saturating_sub(w.window).min(w.sent);
+    let keep_full_below = w.sent.saturating_add(w.len).saturating_sub(w.window).min(w.sent);
     let style = i % 4;
     let mut ops = Vec::new();
     let (mut wdelay, mut sdelay, mut mid_delay) = (0u32, 0u32, 0u32);
@@ -1117,7 +1227,7 @@ fn race_batch(out: &mut Out, rounds: Vec<RaceRound>, idx: &mut u64, until: Insta
     use std::sync::atomic::AtomicUsize;
     let n = rounds.len();
     let ctls: Arc<Vec<Arc<TransferControl>>> = Arc::new(rounds.iter().map(|r| {
-        let tc = TransferControl::new(r.window);
+        let tc = make_control(r.window, &r.setup);
         for op in &r.setup { apply(&tc, op); }
         tc
     }).collect());
@@ -1195,7 +1305,7 @@ fn race_batch(out: &mut Out, rounds: Vec<RaceRound>, idx: &mut u64, until: Insta
         let (sent, acked) = catch(|| tc.offsets()).unwrap_or((0, 0));
         let cancelled = catch(|| tc.is_cancelled()).unwrap_or(true);
         let must_return = cancelled || match &r.kind {
-            Kind::Credit(len) => { let inf = sent.saturating_sub(acked); inf == 0 || inf.saturating_add(*len) <= r.window }
+            Kind::Credit(len) => { let inf = sent.saturating_sub(acked); credit_fits(inf, *len, r.window) }
             Kind::Reconnect => results.iter().any(|x| matches!(x, OpRes::ResumeOk(_))),
         };
         let returned = wait_done(i, if must_return { RACE_WATCHDOG } else { Duration::from_millis(2) });
@@ -1273,7 +1383,7 @@ fn run_case(out: &mut Out, c: &Case, idx: u64, rng: &mut Rng) {
 
 fn main() {
     let args = Args::parse();
-    quiet_panics();
+    if std::env::var("WAKE_LOUD").is_err() { quiet_panics(); }
     let mut out = Out::new(&args.out);
     out.flush_each = true;
     let mut rng = Rng::new(args.seed);
